@@ -79,7 +79,8 @@ type jobctlWorld struct {
 	finishUnreported  map[string]bool  // ... and the pod status carries no container termination time for it (eviction, node lost, DeadlineExceeded): outside E-FinishTimeReported
 	everRan           map[string]int64 // name -> instant (ns) at which the kubelet first started a container of the pod
 	ctlDeleted        map[string]bool  // the controller itself issued a successful delete for this pod
-	deletedUnlisted   map[string]bool  // ... in a pass after which the authoritative status did not list it: outside E-DeleteRecorded
+	deletedUnlisted   map[string]bool  // ... in a pass one of whose calls failed and after which the authoritative status did not list it: outside E-DeleteRecorded
+	passFaulted       bool             // a fault was injected into a call of the running / last pass
 	promptUnscheduled bool             // API server behaviour: a graceful delete of a pod that no kubelet has acknowledged removes the object at once
 	pinnedPods        bool             // the pod template carries a finalizer (NewPod copies it): a pod survives every delete, also with gracePeriodSeconds=0, until the finalizer's owner releases it; monitors-only histories (Ctx.Mute)
 	forceDeleted      map[string]bool  // the controller issued a successful force delete for this pod
@@ -271,6 +272,7 @@ func jcCallsStr(calls []sim.Call) string {
 func (w *jobctlWorld) work() {
 	w.q.Advance()
 	w.api.Calls = nil
+	w.passFaulted = false
 	res := "idle"
 	if w.q.Len() > 0 {
 		key := w.q.Ready()[0]
@@ -289,6 +291,9 @@ func (w *jobctlWorld) work() {
 			}
 			f := w.faults[0]
 			w.faults = w.faults[1:]
+			if f != "" {
+				w.passFaulted = true
+			}
 			return f
 		}
 		w.api.Fault = func(c sim.Call) string {
@@ -378,10 +383,14 @@ func (w *jobctlWorld) work() {
 }
 
 // afterPass: (a) E-DeleteRecorded — a pass that deleted a task of the Job leaves that task listed in
-// the authoritative status (the status write that records it was applied).  Outside it (the write
-// failed: injected fault, or the conflict the controller causes itself by sending UpdateStatus with
-// the resourceVersion that its own Update has just made stale) the task can go away before it is
-// ever listed; such histories are counted, and judged only by the replay of the known finding F31.
+// the authoritative status (the status write that records it was applied).  Since the repair of F31
+// (ExecutionControl.UpdateJobAndStatus: the status is written on top of the object Update returned)
+// a pass leaves this envelope only when one of ITS calls FAILED — a fault was injected, or a write
+// was refused because the cached Job was stale (a concurrent writer): the task can then go away
+// before it is ever listed; such histories are counted (jc.envelope.task-deleted-but-not-recorded)
+// and not judged.  A pass none of whose calls failed is always inside: the monitor
+// created-stays-listed judges it at full strength (before the repair the status write of a pass that
+// also changed the metadata conflicted with that pass's own Update, fault or no fault).
 // (b) the API server removes a pod that no kubelet has acknowledged at once on a graceful delete
 // (pod strategy CheckGracefulDelete: no node => grace period 0); SimAPI lets every pod linger,
 // which is the conservative choice for the generated histories, so the prompt removal is an option
@@ -395,12 +404,18 @@ func (w *jobctlWorld) afterPass() {
 			listed[r.Name] = true
 		}
 	}
+	failed := w.passFaulted // a fault was injected into a call of this pass (also: applied, but reported as an error)
+	for _, cl := range w.api.Calls {
+		if cl.Result == "conflict" || cl.Result == "invalid" || cl.Result == "err" {
+			failed = true // a call of this pass was refused
+		}
+	}
 	for _, cl := range w.api.Calls {
 		if cl.Verb != "delete" || cl.Resource != "pods" || cl.Result != "ok" {
 			continue
 		}
 		_, name, _ := strings.Cut(cl.Key, "/")
-		if j != nil && w.ctlDeleted[name] && !listed[name] && !w.deletedUnlisted[name] {
+		if j != nil && failed && w.ctlDeleted[name] && !listed[name] && !w.deletedUnlisted[name] {
 			w.deletedUnlisted[name] = true
 			w.c.Count("jc.envelope.task-deleted-but-not-recorded")
 		}
@@ -2001,7 +2016,8 @@ func (w *jobctlWorld) finalMonitors() {
 	// deleted.  (A task that was created, never recorded because the write failed, and then removed
 	// by somebody ELSE before any pass saw it cannot be known to any controller that does not record
 	// its intent first; that is not judged.)  Inside E-DeleteRecorded this follows from refs-monotone;
-	// outside it only the replay of the known finding F31 is judged.
+	// a pass is outside it only when one of its calls failed (see afterPass): every task deleted by a
+	// pass none of whose calls failed is judged here (repair of F31; Lean: C09Hist.created_stays_listed).
 	if jobutil.IsStarted(j) && j.DeletionTimestamp == nil {
 		var names []string
 		for name := range w.podsCreated {
